@@ -44,7 +44,7 @@ ANCHORS = [
 FLOORS = {'*': {'schedules': 12000, 'shapes': 1000, 'shapes-with>=2-completion-orders': 80, 'last-element-finishes-first': 50,
                 'max-in-flight>=2:concurrent': 200, 'sequential-mode-shapes': 60, 'points:method': 500, 'points:middleware': 500,
                 'points:error-handler': 200, 'profile:notification': 100, 'profile:plain-method': 100, 'profile:rpc-error': 100,
-                'profile:exception': 100, 'profile:plain-method-raising-TypeError': 50, 'profile:view-method': 50, 'elements:4': 2, 'plain-callable-middleware': 100, 'elements:1': 20,
+                'profile:exception': 100, 'profile:plain-method-raising-TypeError': 50, 'profile:view-method': 50, 'profile:unregistered-method': 100, 'elements:4': 2, 'plain-callable-middleware': 100, 'elements:1': 20,
                 'dispatcher-from-the-aiohttp-integration': 300}}
 
 # (kind, outcome, points)
@@ -53,6 +53,7 @@ PROFILES = [
     ('call', 'rpc', ['m0', 'eh']), ('call', 'exc', ['eh']), ('notify', 'ok', ['m0']), ('notify', 'exc', ['mw-pre', 'eh']),
     ('plain', 'ok', ['mw-post']), ('call', 'rpc', ['m0']), ('plain', 'ok', []), ('plain', 'texc', ['eh']),
     ('view', 'ok', ['m0']),
+    ('unknown', 'nf', ['eh']),         # a call of a method nobody registered: answered in its place like any other element
 ]
 
 CUR = {'sched': None, 'exec': [], 'points': {}}
@@ -74,7 +75,9 @@ def make_dispatcher(via, **kwargs):
     if via == 'aiohttp-endpoint':
         import aiohttp.web
         from pjrpc.server.integration import aiohttp as integ
-        return integ.Application('/rpc', app=aiohttp.web.Application()).add_endpoint('/sub', **kwargs)
+        # (the application's own dispatcher is explicitly configured the other way round: that is ITS configuration)
+        return integ.Application('/rpc', app=aiohttp.web.Application(), concurrent_batch=not kwargs.get('concurrent_batch', True),
+                                 max_batch_size=1).add_endpoint('/sub', **kwargs)
     return pjrpc.server.AsyncDispatcher(**kwargs)
 
 
@@ -152,7 +155,7 @@ def build(shape, concurrent, plain_mw=False, via=None):
         disp.view(View)
     for i, p in enumerate(shape):
         kind, what, pts = PROFILES[p]
-        if kind == 'view':
+        if kind in ('view', 'unknown'):
             continue
 
         def make(i=i, kind=kind, what=what, pts=pts):
@@ -173,12 +176,14 @@ def build(shape, concurrent, plain_mw=False, via=None):
     reqs, want = [], []
     for i, p in enumerate(shape):
         kind, what, pts = PROFILES[p]
-        r = {'jsonrpc': '2.0', 'method': 'vm' if kind == 'view' else f'm{i}', 'params': [i]}
+        r = {'jsonrpc': '2.0', 'method': 'vm' if kind == 'view' else (f'nope{i}' if kind == 'unknown' else f'm{i}'), 'params': [i]}
         if kind != 'notify':
             rid = [0, 'id1', -3, 4, '', 6][i]
             r['id'] = rid
             if what == 'ok':
                 want.append({'jsonrpc': '2.0', 'id': rid, 'result': ['res', i, i]})
+            elif what == 'nf':
+                want.append({'jsonrpc': '2.0', 'id': rid, 'error': {'code': -32601}})
             elif what == 'rpc':
                 want.append({'jsonrpc': '2.0', 'id': rid, 'error': {'code': rpc_code(i), 'message': f'e{i}', 'data': [i, f'h{rpc_code(i)}']}})
             else:
@@ -229,7 +234,7 @@ def run_shape(ctx, shape, concurrent, plain_mw=False, via=None):
             ctx.hit('profile:notification')
         if kind == 'plain':
             ctx.hit('profile:plain-method')
-        ctx.hit('profile:' + {'ok': 'ok', 'rpc': 'rpc-error', 'exc': 'exception', 'texc': 'exception'}[what])
+        ctx.hit('profile:' + {'ok': 'ok', 'rpc': 'rpc-error', 'exc': 'exception', 'texc': 'exception', 'nf': 'unregistered-method'}[what])
         if kind == 'plain' and what == 'texc':
             ctx.hit('profile:plain-method-raising-TypeError')
         if kind == 'view':
@@ -270,7 +275,7 @@ def run_shape(ctx, shape, concurrent, plain_mw=False, via=None):
             if problem is None:
                 if s.parked or len(finish_order) != n:
                     problem = 'dispatch-returned-while-an-element-was-still-in-flight'
-                elif sorted(CUR['exec']) != list(range(n)):
+                elif sorted(CUR['exec']) != [i for i in range(n) if PROFILES[shape[i]][0] != 'unknown']:
                     problem = 'method-not-executed-exactly-once'
                 else:
                     doc = None if out is None else strictjson.decode(out[0])
@@ -332,7 +337,7 @@ def gen(ctx):
     four = [list(s) for s in itertools.product(P, repeat=4)]
     if full:
         shapes += three + rng.sample(four, 2500)
-        light = [0, 1, 5, 6, 8, 9, 10, 11, 12]      # profiles with <= 1 suspension point
+        light = [0, 1, 5, 6, 8, 9, 10, 11, 12, 13]      # profiles with <= 1 suspension point
         shapes += [[rng.choice(light) for _ in range(5)] for _ in range(150)]
     else:
         shapes += three
